@@ -380,6 +380,82 @@ def sample_jobs(quick):
             yield (rel, "comment_above", i)
 
 
+# ------------------------------------------------------- diagnosed programs
+# The canonical programs are valid and carry no diagnostics.  Here: programs with exactly one word-anchored diagnostic
+# (the templates of C09), the flagged word kept on one line, on a last or on a *middle* continuation line, followed by
+# nothing / trailing blanks / an ordinary comment / CRLF.  The diagnostic must name the same message and cover the
+# same word in every layout.
+def diag_layouts():
+    from . import c09
+
+    for name in c09.DIAG_TEMPLATES:
+        for place in ("one_line", "last_line", "middle_line"):
+            for tail in ("", "   ", " ! a trailing comment", "  ! c & d"):
+                for eol in ("\n", "\r\n"):
+                    if place == "one_line" and tail.strip():
+                        continue
+                    yield (name, place, tail, eol)
+
+
+def diag_layout_text(case):
+    from . import c09
+
+    name, place, tail, eol = case
+    out = []
+    for ln in c09.DIAG_TEMPLATES[name]:
+        if "@" not in ln:
+            out.append(ln)
+            continue
+        head, rest = ln.split("@")
+        word = re.match(r"\w+", rest).group(0)
+        after = rest[len(word):]
+        if place == "one_line":
+            out.append(head + word + after + tail)
+        elif place == "last_line" or not after.strip():
+            out.append(head.rstrip() + " &")
+            out.append("        " + word + after + tail)
+        else:
+            out.append(head.rstrip() + " &")
+            out.append("        " + word + " &" + tail)
+            out.append("        " + after.strip())
+    return eol.join(out) + eol, word
+
+
+def diag_layout_case(case, acc: Acc):
+    text, word = diag_layout_text(case)
+    base_text, _ = diag_layout_text((case[0], "one_line", "", "\n"))
+
+    def diags_of(t):
+        sc = worker_scratch("c13d")
+        sc.wipe()
+        root = os.path.realpath(sc.path)
+        path = os.path.join(root, "d.f90")
+        with open(path, "w", newline="") as f:
+            f.write(t)
+        s = Server([])
+        s.initialize(root)
+        lines = re.split(r"\r\n|\n", t)
+        got = []
+        for o in s.open(path):
+            if o.get("method") == "textDocument/publishDiagnostics":
+                for d in o["params"]["diagnostics"]:
+                    r = d["range"]
+                    cov = lines[r["start"]["line"]][r["start"]["character"]:r["end"]["character"]] if r["start"]["line"] == r["end"]["line"] and r["start"]["line"] < len(lines) else None
+                    got.append((d["message"], d.get("severity"), (cov or "").lower()))
+        return sorted(got)
+
+    want = diags_of(base_text)
+    got = diags_of(text)
+    acc.case(nontrivial_key=case if want else None, outcome=(case[0], len(want)))
+    if got != want:
+        acc.violation(Violation("diagnosed", {"family": "diagnosed", "class": case[0], "place": case[1], "tail": case[2].strip()[:1] or ("blanks" if case[2] else ""),
+                                              "crlf": case[3] != "\n", "kind": "diag"},
+                                {"case": list(case), "text": text}, want, got,
+                                what=f"{case}: diagnostics (message, severity, covered text) {got} differ from the one-line layout's {want}"))
+    if len(acc.samples) < 1 and case[1] == "middle_line":
+        acc.sample({"case": list(case), "text": text})
+
+
 def main(ctx):
     q = ctx.quick
     ctx.rule = ("programs: 6 canonical programs (together every statement kind) x every single transformation — 2 line "
@@ -404,11 +480,17 @@ def main(ctx):
     ctx.add_family("programs", acc, variants=len(jobs))
     sacc = core.pmap(sample_case, sample_jobs(q), chunk=8, budget_s=120, label="C13/samples")
     ctx.add_family("samples", sacc)
+    dacc = core.pmap(diag_layout_case, list(diag_layouts()), chunk=4, budget_s=120, label="C13/diagnosed")
+    ctx.add_family("diagnosed", dacc, what="6 programs with one word-anchored diagnostic x word on one line / last / middle continuation line "
+                   "x nothing / blanks / comments after it x LF / CRLF; (message, severity, covered word) compared with the one-line layout")
 
 
 def replay(rec):
     c = rec["case"]
     acc = Acc()
+    if rec["family"] == "diagnosed":
+        diag_layout_case(tuple(c["case"]), acc)
+        return [v.to_json("C13") for v in acc.violations] or None
     if rec["family"] == "programs":
         lay = c["layout"]
         kw = {}
